@@ -494,8 +494,54 @@ def slice_cases():
                     bad.append(f"successor solver lacks {sorted(need - held)}")
         ctx.oblige("closure across transactions: a path extended from a sliced path still finds the earlier transactions' constraints on the state variables", z3.BoolVal(not bad), info={"witness": bad[0][:300] if bad else ""})
 
+    # a chain of four links: the closure is a fixpoint, not one step (seed C11-13: a single pass over the first set)
+    a, b, c, s = z3.BitVecs("ca cb cc cs", 256)
+    CHAIN = [z3.ULT(s, a), z3.ULT(a, b), z3.ULT(b, c), z3.ULT(c, 7), u == 3]
+
+    def harness_chain(interp):
+        ctx = interp.ctx
+        bad, bad_solver = [], []
+        n = 0
+        for order in itertools.permutations(range(len(CHAIN))):
+            for state_vars in ([s], [c], [u], [b]):
+                p = hs.Path(hm.mk_solver(config()))
+                for i in order:
+                    interp.call(hs.Path.__dict__["append"], [p, CHAIN[i]], {})
+                interp.call(hs.Path.__dict__["slice"], [p, set(state_vars)], {})
+                n += 1
+                ok, why = closure_ok(p, state_vars)
+                if not ok and len(bad) < 3:
+                    bad.append(why)
+                want = set(range(len(CHAIN))) - {order.index(4)} if state_vars != [u] else {order.index(4)}
+                if set(p.sliced) != want and len(bad) < 3:
+                    bad.append(f"sliced = {sorted(p.sliced)}, the constraints connected with {state_vars} are {sorted(want)} of {[str(x) for x in p.conditions]}")
+                child = hs.Path(hm.mk_solver(config()))
+                interp.call(hs.Path.__dict__["extend_path"], [child, p], {})
+                held = {str(t) for t in child.solver.assertions()}
+                need = {str(t) for i, t in enumerate(p.conditions) if i in want}
+                if not need <= held and len(bad_solver) < 3:
+                    bad_solver.append(f"solver of the path extended from the sliced state lacks {sorted(need - held)} (state variables {state_vars})")
+        ctx.oblige(f"closure is a fixpoint: on a chain s<a<b<c<7 added in any order ({n} histories) the state's constraints are exactly the ones connected with the state variable through any number of shared variables", z3.BoolVal(not bad), info={"witness": bad[0][:300] if bad else ""})
+        ctx.oblige("the solver of a path extended from the sliced state holds every constraint connected with the state variables (the query and the solver agree on them)", z3.BoolVal(not bad_solver), info={"witness": bad_solver[0][:300] if bad_solver else ""})
+
+    out.append(Case(f"{PROP}/sevm.Path.slice#closure", "chain of four links in every order, four choices of state variables", harness_chain, replay=replay_slice_chain, sources=("halmos.sevm:Path.slice", "halmos.sevm:Path._get_related", "halmos.sevm:Path.append", "halmos.sevm:Path.extend_path")))
+
     out.append(Case(f"{PROP}/sevm.Path.slice#closure", "two transactions (extend_path in between)", harness_two_tx, replay=replay_slice_order, sources=("halmos.sevm:Path.slice", "halmos.sevm:Path.extend_path", "halmos.sevm:Path.append")))
     return out
+
+
+def replay_slice_chain(r):
+    """native: s < a, a < b, b < 7 with state variable s: all three identify the state"""
+    s, a, b = z3.BitVecs("cs ca cb", 256)
+    from contracts.common import config
+
+    p = hs.Path(hm.mk_solver(config()))
+    for t in (z3.ULT(s, a), z3.ULT(a, b), z3.ULT(b, 7)):
+        p.append(t)
+    p.slice({s})
+    if set(p.sliced) != {0, 1, 2}:
+        return {"reproduced": True, "detail": f"Path.slice({{s}}) on s<a, a<b, b<7 keeps {sorted(p.sliced)}: the bound b<7, two shared variables away from s, is not part of the state (a path extended from it can take s == 6, which the full query refutes)", "inputs": "append(s<a); append(a<b); append(b<7); slice({s})"}
+    return {"reproduced": False, "detail": "closure reaches b<7"}
 
 
 def replay_slice_order(r):
